@@ -223,7 +223,9 @@ theorem trans_zsetInternalKey_encodeWithScore_eq (score key member : ByteArray) 
 theorem toNat_eq_List_iff (t : UInt8) : t.toNat = datatype.List_ ↔ t = Datatype.tList :=
   ⟨fun h => UInt8.toNat_inj.1 h, fun h => by rw [h]; rfl⟩
 
-/-- `(*metadata).encode` = `encodeMeta` (the 26- resp. 46-byte buffer always suffices) -/
+set_option linter.unusedSimpArgs false in
+/-- `(*metadata).encode` = `encodeMeta` (the 26- resp. 46-byte buffer always suffices).
+    (`eq_comm (a := List_)`: the test may be written `List == md.dataType`.) -/
 theorem trans_metadata_encode_eq (m : Datatype.Meta) (he : m.expire < 2^63) (hv : m.version < 2^63)
     (hs : m.size < 2^32) (hh : m.head < 2^64) (ht : m.tail < 2^64) :
     datatype.metadata_encode m.dataType.toNat (m.expire : Int) (m.version : Int) m.size m.head m.tail
@@ -254,8 +256,8 @@ theorem trans_metadata_encode_eq (m : Datatype.Meta) (he : m.expire < 2^63) (hv 
         ofList_cons, ofList_append, ofList_append, ofList_append, ofList_append, UInt8.ofNat_toNat]
       simp only [ByteArray.empty_append, ByteArray.append_assoc]
     rw [hP]
-    simp (disch := omega) only [datatype.metadata_encode, hsz1, hsz2, hsz3, hsz4, hsz5, i64_of_range, if_pos hc,
-      datatype.maxMetadataSize, datatype.extraListMetaSize]
+    simp (disch := omega) only [datatype.metadata_encode, hsz1, hsz2, hsz3, hsz4, hsz5, i64_of_range,
+      eq_comm (a := datatype.List_), if_pos hc, datatype.maxMetadataSize, datatype.extraListMetaSize]
     generalize hB : mkBytes _ = B
     have hBs := congrArg ByteArray.size hB
     rw [size_mkBytes] at hBs
@@ -272,8 +274,8 @@ theorem trans_metadata_encode_eq (m : Datatype.Meta) (he : m.expire < 2^63) (hv 
         ofList_cons, ofList_append, ofList_append, UInt8.ofNat_toNat]
       simp only [ByteArray.empty_append, ByteArray.append_assoc]
     rw [hP]
-    simp (disch := omega) only [datatype.metadata_encode, hsz1, hsz2, hsz3, i64_of_range, if_neg hc,
-      datatype.maxMetadataSize]
+    simp (disch := omega) only [datatype.metadata_encode, hsz1, hsz2, hsz3, i64_of_range,
+      eq_comm (a := datatype.List_), if_neg hc, datatype.maxMetadataSize]
     generalize hB : mkBytes _ = B
     have hBs := congrArg ByteArray.size hB
     rw [size_mkBytes] at hBs
@@ -383,6 +385,7 @@ theorem decodeMeta_some {buf : ByteArray} {m : Datatype.Meta} (h : Datatype.deco
 def goMeta (m : Datatype.Meta) : datatype.metadata :=
   { dataType := m.dataType.toNat, expire := m.expire, version := m.version, size := m.size, head := m.head, tail := m.tail }
 
+set_option linter.unusedSimpArgs false in
 theorem trans_decodeMetadata_eq (buf : ByteArray) (m : Datatype.Meta)
     (h : Datatype.decodeMeta buf = some m) : datatype.decodeMetadata buf = goMeta m := by
   obtain ⟨r, n1, n2, n3, sz, hb, h1, h2, h3, hsz, hrest⟩ := decodeMeta_some h
@@ -399,15 +402,17 @@ theorem trans_decodeMetadata_eq (buf : ByteArray) (m : Datatype.Meta)
     have v4 := Uvarint_drop h4
     have v5 := Uvarint_drop h5
     have hc : m.dataType.toNat = datatype.List_ := (toNat_eq_List_iff _).2 hl
-    simp (disch := omega) only [datatype.decodeMetadata, hg, v1, v2, v3, v4, v5, i64_of_range, if_pos hc]
+    simp (disch := omega) only [datatype.decodeMetadata, hg, v1, v2, v3, v4, v5, i64_of_range,
+      eq_comm (a := datatype.List_), if_pos hc]
     rw [datatype.metadata.mk.injEq]
-    refine ⟨rfl, rfl, rfl, ?_, rfl, rfl⟩
-    omega
+    refine ⟨?_, ?_, ?_, ?_, ?_, ?_⟩
+    all_goals first | (with_reducible rfl) | omega
   · have hc : ¬ m.dataType.toNat = datatype.List_ := fun h => hl ((toNat_eq_List_iff _).1 h)
-    simp (disch := omega) only [datatype.decodeMetadata, hg, v1, v2, v3, i64_of_range, if_neg hc]
+    simp (disch := omega) only [datatype.decodeMetadata, hg, v1, v2, v3, i64_of_range,
+      eq_comm (a := datatype.List_), if_neg hc]
     rw [datatype.metadata.mk.injEq]
-    refine ⟨rfl, rfl, rfl, ?_, hh.symm, ht.symm⟩
-    omega
+    refine ⟨?_, ?_, ?_, ?_, ?_, ?_⟩
+    all_goals first | (with_reducible rfl) | omega
 
 /-- consequence (with `decodeMeta_encodeMeta`): the translated Go decoder reads back every metadata record the
     model encoder writes -/
@@ -607,7 +612,7 @@ theorem trans_Get_eq (db : ByteArray → ByteArray) (kv : Datatype.KV) (key enc 
     simp only [hl] at hnp ⊢
     have hg := get!_zero_of_toList hl
     by_cases ht : t = Datatype.tString
-    · have hc : ¬ (t.toNat ≠ datatype.String_) := by rw [ht]; exact fun h => h rfl
+    · have htn : t.toNat = 0 := by rw [ht]; rfl
       rw [if_neg (by simpa using ht)] at hnp ⊢
       cases hu : uvarint r with
       | none => simp only [hu] at hnp; exact absurd rfl hnp
@@ -617,24 +622,29 @@ theorem trans_Get_eq (db : ByteArray → ByteArray) (kv : Datatype.KV) (key enc 
         have hu' : uvarint (enc.data.toList.drop 1) = some (ux, n) := by rw [hl]; exact hu
         have bn := uvarintGo_bound _ _ _ _ _ _ hu (by omega)
         have v1 := Uvarint_drop hu'
-        by_cases hx : ux % 2 = 0 ∧ ux / 2 > 0 ∧ ux / 2 ≤ now
-        · rw [if_pos hx]
-          have hc2 : (if ux % 2 = 0 then ((ux / 2 : Nat) : Int) else -((ux / 2 : Nat) : Int) - 1) > 0 ∧
-              (if ux % 2 = 0 then ((ux / 2 : Nat) : Int) else -((ux / 2 : Nat) : Int) - 1) ≤ (now : Int) := by
-            rw [if_pos hx.1]; omega
-          simp (disch := omega) only [datatype.Get, hdb, hg, binary_Varint, v1, i64_of_range, if_neg hc, if_pos hc2]
-          rfl
-        · rw [if_neg hx]
-          have hc2 : ¬ ((if ux % 2 = 0 then ((ux / 2 : Nat) : Int) else -((ux / 2 : Nat) : Int) - 1) > 0 ∧
-              (if ux % 2 = 0 then ((ux / 2 : Nat) : Int) else -((ux / 2 : Nat) : Int) - 1) ≤ (now : Int)) := by
-            split <;> omega
-          simp (disch := omega) only [datatype.Get, hdb, hg, binary_Varint, v1, i64_of_range, if_neg hc, if_neg hc2]
-          show (enc.extract (1 + (n : Int)).toNat enc.size, none) = (enc.extract (1 + n) enc.size, none)
-          congr 2
-    · have hc : t.toNat ≠ datatype.String_ := fun h => ht (UInt8.toNat_inj.1 h)
+        -- the Go code's tests are decided by case analysis (however they are written), the zig-zag by parity
+        by_cases hpar : ux % 2 = 0
+        · simp (disch := omega) only [datatype.Get, hdb, hg, binary_Varint, v1, i64_of_range, if_pos hpar,
+            datatype.String_, htn]
+          repeat' split
+          all_goals first
+            | (exfalso; omega)
+            | rfl
+            | (show (_, _) = (_, _); congr 2; omega)
+        · simp (disch := omega) only [datatype.Get, hdb, hg, binary_Varint, v1, i64_of_range, if_neg hpar,
+            datatype.String_, htn]
+          repeat' split
+          all_goals first
+            | (exfalso; omega)
+            | rfl
+            | (show (_, _) = (_, _); congr 2; omega)
+    · have htn : t.toNat ≠ 0 := fun h => ht (UInt8.toNat_inj.1 h)
       rw [if_pos (by simpa using ht)]
-      simp (disch := omega) only [datatype.Get, hdb, hg, if_pos hc]
-      rfl
+      simp (disch := omega) only [datatype.Get, hdb, hg, datatype.String_]
+      repeat' split
+      all_goals first
+        | (exfalso; omega)
+        | rfl
 
 /-- `Set k [1,2,3]` with a ttl of 5 ns at time 1000: the record is type 0, varint 2·1005, the value -/
 example : datatype.Set_put (fun d => 1000 + d) ⟨#[0x6b]⟩ ⟨#[1, 2, 3]⟩ 5 = (⟨#[0x6b]⟩, Datatype.encodeStr 1005 ⟨#[1, 2, 3]⟩) :=
